@@ -224,3 +224,5 @@ func vpOneRecord(i, extra int) []byte {
 	}
 	return append(out, '\n')
 }
+
+func vpKeyOf(rec any) []byte { return vpKey(rec.(*SAM)) }
